@@ -11,6 +11,7 @@
 //	fin N:<..> D:<..> T:<..>   finalize; the sets (new nodes, dead nodes, all nodes of the state; 12 hex chars of each
 //	                           hash, sorted) are what the GENERATOR computed on its own copy of the trie; the answer
 //	                           carries the sets computed HERE
+//	rb <round>                 roll back to the finalized block of <round> (a fork wins): the next blocks re-use the rounds above it
 //	prune <count>              pruneClientState with PruneStateBelowCount=count -> noprune | abandoned | pruned <v> <deleted>
 //	check <round>              iterate the whole state of that block from the persistent DB -> ok | missing | unknown-round
 //	ccnew | ccadd <old|-> <new> | ccdel <old> | ccdump      the change collector
@@ -82,6 +83,7 @@ type trieSim struct {
 	state util.MerklePatriciaTrieI
 	txn   util.MerklePatriciaTrieI
 	sc    *statecache.StateCache
+	live  map[int64]*block.Block // the finalized blocks of the current fork, by round
 }
 
 func (s *trieSim) genesis(round0 int64) {
@@ -91,6 +93,22 @@ func (s *trieSim) genesis(round0 int64) {
 	gb.ClientStateHash = gb.ClientState.GetRoot()
 	gb.SetStateStatus(block.StateSuccessful)
 	s.prev, s.blk, s.state, s.txn = gb, nil, nil, nil
+	s.live = map[int64]*block.Block{round0: gb}
+}
+
+// rollback: the fork point becomes the latest finalized block again; the blocks above it are abandoned
+func (s *trieSim) rollback(r int64) bool {
+	b, ok := s.live[r]
+	if !ok || s.blk != nil || r >= s.prev.Round {
+		return false
+	}
+	for q := range s.live {
+		if q > r {
+			delete(s.live, q)
+		}
+	}
+	s.prev = b
+	return true
 }
 
 func (s *trieSim) open(r int64) {
@@ -274,7 +292,7 @@ func (ic *implCase) do(w []string) (out string) {
 		ic.sim = &trieSim{salt: w[1], base: ic.rdb, sc: statecache.NewStateCache()}
 		ic.sim.genesis(r0)
 		c.SetLatestFinalizedBlock(ic.sim.prev)
-		ic.roots = map[int64]util.Key{}
+		ic.roots = map[int64]util.Key{r0: ic.sim.prev.ClientStateHash}
 		return "ok"
 	case "b":
 		if len(w) != 2 || s == nil || s.blk != nil {
@@ -347,8 +365,27 @@ func (ic *implCase) do(w []string) (out string) {
 			return "finalize-err"
 		}
 		ic.roots[s.blk.Round] = s.blk.ClientStateHash
+		s.live[s.blk.Round] = s.blk
 		s.prev, s.blk, s.state = s.blk, nil, nil
 		return fmt.Sprintf("fin N:%s D:%s T:%s", setStr(n), setStr(d), setStr(t))
+	case "rb":
+		// the state-setting calls of finalizeRound's "rolling back finalized block" branch, with the fork point as
+		// common ancestor; the winning fork's blocks are then finalized by the real finalizeBlock for the same rounds
+		if len(w) != 2 || s == nil {
+			return "bad-op"
+		}
+		r, err := strconv.ParseInt(w[1], 10, 64)
+		if err != nil || !s.rollback(r) {
+			return "bad-op"
+		}
+		ic.c.SetLatestOwnFinalizedBlockRound(r)
+		ic.c.SetLatestFinalizedBlock(s.prev)
+		for q := range ic.roots {
+			if q > r {
+				delete(ic.roots, q)
+			}
+		}
+		return "ok"
 	case "prune":
 		if len(w) != 2 || s == nil || s.blk != nil {
 			return "bad-op"
@@ -510,6 +547,15 @@ func gen(r *rand.Rand, thorough bool, i int) (ops []string) {
 	if r.Intn(5) == 0 {
 		round0 = int64(r.Intn(3))
 	}
+	// plan (every fourth history): blocks up to just below a multiple of 100 rewrite keys, then a fork wins whose first
+	// blocks are empty and re-use those rounds, the chain grows past the multiple of 100, and the state is pruned below
+	// it: the retained blocks must not lose what the rolled-back blocks had recorded dead
+	plan, forked := i%4 == 2, false
+	base100 := int64(100 * (1 + r.Intn(50)))
+	stopAt := base100 + 2 + int64(r.Intn(6))
+	if plan {
+		round0 = base100 - 6 - int64(r.Intn(8))
+	}
 	ops = []string{fmt.Sprintf("hist %s %d", salt, round0)}
 	prevT := map[string]bool{}
 	sim := &trieSim{salt: salt, base: generatorDB(), sc: statecache.NewStateCache()}
@@ -518,19 +564,66 @@ func gen(r *rand.Rand, thorough bool, i int) (ops []string) {
 	if thorough {
 		nblocks = 4 + r.Intn(120)
 	}
+	if plan {
+		nblocks = 1000 // until stopAt
+	}
 	keys := []string{"k1", "k2", "k3", "k4", "k5", "pa", "pb", "pc", "pd"}
 	vals := []string{"v1", "v2", "v3"}
 	live := map[string]string{}
 	var finalized []int64
+	liveAt := map[int64]map[string]string{round0: {}}   // key/value content of each finalized block
+	tAt := map[int64]map[string]bool{round0: {}}        // node set of each finalized block
+	var maxVersion, consecutiveUntil int64 = -1, -1
 	rd := round0
+	forkEmpty := 0
 	for bi := 0; bi < nblocks; bi++ {
+		// a fork wins: roll back a few finalized blocks; the winning fork's blocks take the same rounds, one per round
+		// until it has passed the abandoned tip (as a chain does); its first blocks are often EMPTY
+		if plan && forked && rd >= stopAt {
+			break
+		}
+		if len(finalized) >= 2 && ((!plan && r.Intn(7) == 0) || (plan && !forked && rd >= base100-2)) {
+			depth := 1 + r.Intn(minInt(4, len(finalized)-1))
+			if plan {
+				depth = 1 + r.Intn(minInt(2, len(finalized)-1))
+				forked = true
+			}
+			target := finalized[len(finalized)-1-depth]
+			if target >= maxVersion {
+				ops = append(ops, fmt.Sprintf("rb %d", target))
+				if !sim.rollback(target) {
+					return append(ops, "generr rollback")
+				}
+				if rd > consecutiveUntil {
+					consecutiveUntil = rd
+				}
+				finalized = finalized[:len(finalized)-depth]
+				rd = target
+				live = map[string]string{}
+				for k, v := range liveAt[target] {
+					live[k] = v
+				}
+				prevT = tAt[target]
+				forkEmpty = r.Intn(3)
+				if plan {
+					forkEmpty = 1 + r.Intn(2)
+				}
+			}
+		}
 		rd++
-		if r.Intn(8) == 0 {
+		if rd > consecutiveUntil && !plan && r.Intn(8) == 0 {
 			rd += int64(1 + r.Intn(3)) // rounds without a finalized block of their own
 		}
 		ops = append(ops, fmt.Sprintf("b %d", rd))
 		sim.open(rd)
 		ntx := r.Intn(4)
+		if plan && !forked {
+			ntx = 1 + r.Intn(3) // the blocks that will be rolled back rewrite keys
+		}
+		if forkEmpty > 0 || (rd <= consecutiveUntil && r.Intn(2) == 0) {
+			ntx = 0 // an empty block: it deletes nothing, its dead-node record is empty
+			forkEmpty--
+		}
 		for ti := 0; ti < ntx; ti++ {
 			ops = append(ops, "t")
 			sim.beginTxn()
@@ -602,17 +695,31 @@ func gen(r *rand.Rand, thorough bool, i int) (ops []string) {
 			return append(ops, "generr save "+strings.ReplaceAll(err.Error(), " ", "_"))
 		}
 		sim.state.SetNodeDB(sim.base) // as rebaseState does for the latest finalized block
+		sim.live[rd] = sim.blk
 		sim.prev, sim.blk, sim.state = sim.blk, nil, nil
 		finalized = append(finalized, rd)
-		if r.Intn(4) == 0 || bi == nblocks-1 {
+		liveAt[rd] = map[string]string{}
+		for k, v := range live {
+			liveAt[rd][k] = v
+		}
+		tAt[rd] = prevT
+		if (!plan && (r.Intn(4) == 0 || bi == nblocks-1)) || (plan && forked && rd >= stopAt) {
 			cnt := r.Intn(12)
-			switch r.Intn(6) {
-			case 0:
-				cnt = 0
-			case 1:
-				cnt = 100
+			if plan {
+				cnt = r.Intn(3)
+			}
+			if !plan {
+				switch r.Intn(6) {
+				case 0:
+					cnt = 0
+				case 1:
+					cnt = 100
+				}
 			}
 			ops = append(ops, fmt.Sprintf("prune %d", cnt))
+			if rd-int64(cnt) > maxVersion { // the version pruneClientState may choose is at most lfb - count
+				maxVersion = rd - int64(cnt)
+			}
 			// read back every block finalized so far (the pruned ones may be gone, the retained ones must not be)
 			for _, f := range finalized {
 				if len(finalized) < 12 || r.Intn(3) == 0 || f+15 > rd {
@@ -622,6 +729,13 @@ func gen(r *rand.Rand, thorough bool, i int) (ops []string) {
 		}
 	}
 	return ops
+}
+
+func minInt(a, b int) int {
+	if a < b {
+		return a
+	}
+	return b
 }
 
 // ---------------------------------------------------------------------------------------------- oracle
@@ -650,7 +764,8 @@ func oracle(ops, outs []string) *corr.Violation {
 		finalized     = map[int64]bool{}
 		version       int64 = -1
 		prevT         map[string]bool
-		everPersisted = map[string]bool{}
+		everPersisted = map[string]int64{} // node -> round of the block that persisted it
+		tAt           = map[int64]map[string]bool{}
 	)
 	for i, op := range ops {
 		w := strings.Fields(op)
@@ -663,7 +778,23 @@ func oracle(ops, outs []string) *corr.Violation {
 			return mk("generator-failed", fmt.Sprintf("op %d: %s", i, op))
 		case "hist":
 			lfb, _ = strconv.ParseInt(w[2], 10, 64)
-			finalized, version, prevT, everPersisted = map[int64]bool{}, -1, map[string]bool{}, map[string]bool{}
+			finalized, version, prevT, everPersisted = map[int64]bool{}, -1, map[string]bool{}, map[string]int64{}
+			tAt = map[int64]map[string]bool{lfb: {}}
+		case "rb":
+			// a fork wins: the blocks above the fork point are no longer part of the chain
+			r, _ := strconv.ParseInt(w[1], 10, 64)
+			if r < version {
+				continue // rolled back below a pruned version: outside what pruning promises
+			}
+			for q := range finalized {
+				if q > r {
+					delete(finalized, q)
+				}
+			}
+			if t, ok := tAt[r]; ok {
+				prevT = t
+			}
+			lfb = r
 		case "b":
 			cur, _ = strconv.ParseInt(w[1], 10, 64)
 			abortedDel = false
@@ -703,14 +834,15 @@ func oracle(ops, outs []string) *corr.Violation {
 				}
 			}
 			for h := range n {
-				if everPersisted[h] && !prevT[h] {
+				if pr, was := everPersisted[h]; was && pr != cur && !prevT[h] {
 					// a new node with the hash of a node persisted earlier and since dropped from the state: only
 					// possible if a hash could repeat across rounds
 					return mk("node-hash-reused-across-rounds", fmt.Sprintf("op %d: new node %s of round %d was persisted before", i, h, cur))
 				}
-				everPersisted[h] = true
+				everPersisted[h] = cur
 			}
 			prevT = t
+			tAt[cur] = t
 			finalized[cur] = true
 			lfb = cur
 		case "prune":
